@@ -78,7 +78,7 @@ def verdict (case impl : String) : String :=
   let arg (i : Nat) : String := f.getD i ""
   match arg 0 with
   | "cmp" => C18.verdict (arg 1) (arg 2) impl
-  | "stabilize" => C13.verdict (arg 1) (arg 2) impl
+  | "stabilize" => C13.verdict (arg 1) (arg 2) impl (arg 3)
   | "rules" => rulesVerdict (arg 1) (arg 2) (parseStr (arg 3)) impl
   | "rule" =>
     match ruleOfName (arg 1) with
